@@ -15,8 +15,29 @@ pub(crate) enum CodeAddress {
     OffsetInFunction { id: Id<Function>, offset: usize },
     /// The address is boundary of functions. Equals to OffsetInFunction with offset(section size).
     FunctionEdge { id: Id<Function> },
+    /// The address is the first byte of the body of a function, i.e. the byte
+    /// right after the function's size field. This is where `DW_AT_low_pc` of
+    /// a subprogram and the base address of its line sequence point to.
+    FunctionBodyStart { id: Id<Function> },
     /// The address is unknown.
     Unknown,
+}
+
+/// Given the range of a function entry in the code section (size field
+/// included), returns the offset of the first byte after the size field.
+fn body_start(range: &Range<usize>) -> usize {
+    let total = range.end - range.start;
+    for leb_len in 1..=5usize {
+        if total < leb_len {
+            break;
+        }
+        let size = total - leb_len;
+        let needed = (1..5usize).find(|n| size >> (7 * n) == 0).unwrap_or(5);
+        if needed == leb_len {
+            return range.start + leb_len;
+        }
+    }
+    range.start
 }
 
 /// Converts original code address to CodeAddress
@@ -64,6 +85,25 @@ impl CodeAddressGenerator {
                 }
             }
             Err(id) => {
+                // The start of a function body is not an instruction (the locals
+                // declaration comes first), but it must follow its function even
+                // if the first instruction is removed or something is inserted in
+                // front of it, or if the size field changes its length.
+                if let Ok(i) = self.address_convert_table.binary_search_by(|range| {
+                    if range.0.end <= address {
+                        Ordering::Less
+                    } else if address < range.0.start {
+                        Ordering::Greater
+                    } else {
+                        Ordering::Equal
+                    }
+                }) {
+                    let entry = &self.address_convert_table[i];
+                    if address != entry.0.start && address == body_start(&entry.0) {
+                        return CodeAddress::FunctionBodyStart { id: entry.1 };
+                    }
+                }
+
                 if id < self.instrument_address_convert_table.len()
                     && self.instrument_address_convert_table[id].0 - 1 == address
                 {
@@ -168,6 +208,16 @@ impl<'a> CodeAddressConverter<'a> {
                     .binary_search_by_key(&id, |i| i.0)
                 {
                     Ok(id) => Some(self.code_transform.function_ranges[id].1.end),
+                    Err(_) => None,
+                }
+            }
+            CodeAddress::FunctionBodyStart { id } => {
+                match self
+                    .code_transform
+                    .function_ranges
+                    .binary_search_by_key(&id, |i| i.0)
+                {
+                    Ok(id) => Some(body_start(&self.code_transform.function_ranges[id].1)),
                     Err(_) => None,
                 }
             }
